@@ -21,6 +21,17 @@ struct TimerRec {
   due: u64,
   fired: bool,
   waker: Option<Waker>,
+  /// has returned `Ready` (mode `realtimer`: a further poll panics, as the timers of futures-time do)
+  done: bool,
+}
+
+/// Case field `realtimer`: the two rules of a REAL timer future the plain virtual clock does not have — a timer of zero
+/// length is ready at its FIRST poll (nobody has to fire it), and a timer must not be polled again after it has
+/// completed (it panics).  Cases with this field have no model (implementation + oracle only).
+static REAL: std::sync::atomic::AtomicBool = std::sync::atomic::AtomicBool::new(false);
+
+pub fn set_real(on: bool) {
+  REAL.store(on, std::sync::atomic::Ordering::SeqCst);
 }
 
 #[derive(Default)]
@@ -63,7 +74,11 @@ impl Future for VTimer {
   fn poll(self: Pin<&mut Self>, cx: &mut Context<'_>) -> Poll<()> {
     with_clock(|c| {
       let t = &mut c.timers[self.0];
+      if t.done && REAL.load(std::sync::atomic::Ordering::SeqCst) {
+        panic!("timer polled after completion");
+      }
       if t.fired {
+        t.done = true;
         Poll::Ready(())
       } else {
         t.waker = Some(cx.waker().clone());
@@ -97,7 +112,8 @@ fn millis(d: Duration) -> u64 {
 fn new_timer(d: Duration) -> BoxFuture<'static, ()> {
   let id = with_clock(|c| {
     let due = c.now + millis(d);
-    c.timers.push(TimerRec { due, fired: false, waker: None });
+    let ready = REAL.load(std::sync::atomic::Ordering::SeqCst) && millis(d) == 0;
+    c.timers.push(TimerRec { due, fired: ready, waker: None, done: false });
     c.requested.push(millis(d));
     c.timers.len() - 1
   });
